@@ -198,10 +198,14 @@ func (d *DiagDense) DiagFrom(m Matrix) {
 		}
 	case RawSymBander:
 		mat := r.RawSymBand()
+		data := mat.Data
+		if mat.Uplo == blas.Lower {
+			data = data[mat.K:]
+		}
 		vec = blas64.Vector{
 			N:    n,
 			Inc:  mat.Stride,
-			Data: mat.Data[:(n-1)*mat.Stride+1],
+			Data: data[:(n-1)*mat.Stride+1],
 		}
 	case RawSymmetricer:
 		mat := r.RawSymmetric()
